@@ -1,1 +1,100 @@
-// placeholder
+//! C01 — separator arithmetic on full 256-bit keys: for every a < b,
+//!   a < separate(a, b) <= b, the separator is the *shortest* such bit string
+//!   (separator_len == prefix_len(a, b) + 1, all later bits zero), and prefix_len /
+//!   separator_len agree with independent word-level references (leading_zeros / trailing_zeros
+//!   of the big-endian 64-bit words).
+
+use nomt::verif_api::beatree::{prefix_len, separate, separator_len};
+
+fn words(k: &[u8; 32]) -> [u64; 4] {
+    let mut w = [0u64; 4];
+    let mut i = 0;
+    while i < 4 {
+        w[i] = u64::from_be_bytes([
+            k[8 * i],
+            k[8 * i + 1],
+            k[8 * i + 2],
+            k[8 * i + 3],
+            k[8 * i + 4],
+            k[8 * i + 5],
+            k[8 * i + 6],
+            k[8 * i + 7],
+        ]);
+        i += 1;
+    }
+    w
+}
+
+fn lt(a: &[u64; 4], b: &[u64; 4]) -> bool {
+    if a[0] != b[0] {
+        return a[0] < b[0];
+    }
+    if a[1] != b[1] {
+        return a[1] < b[1];
+    }
+    if a[2] != b[2] {
+        return a[2] < b[2];
+    }
+    a[3] < b[3]
+}
+
+/// number of equal leading bits (256 if equal)
+fn prefix_ref(a: &[u64; 4], b: &[u64; 4]) -> usize {
+    let mut i = 0;
+    while i < 4 {
+        let x = a[i] ^ b[i];
+        if x != 0 {
+            return 64 * i + x.leading_zeros() as usize;
+        }
+        i += 1;
+    }
+    256
+}
+
+/// 256 - trailing zero bits; 1 for the all-zero key (documented special case)
+fn seplen_ref(k: &[u64; 4]) -> usize {
+    let mut i = 4;
+    while i > 0 {
+        if k[i - 1] != 0 {
+            return 64 * i - k[i - 1].trailing_zeros() as usize;
+        }
+        i -= 1;
+    }
+    1
+}
+
+#[kani::proof]
+pub fn c01_prefix_len_matches_reference() {
+    let a: [u8; 32] = kani::any();
+    let b: [u8; 32] = kani::any();
+    assert!(prefix_len(&a, &b) == prefix_ref(&words(&a), &words(&b)));
+    kani::cover!(prefix_len(&a, &b) == 255, "keys differing in the last bit");
+}
+
+#[kani::proof]
+pub fn c01_separator_len_matches_reference() {
+    let k: [u8; 32] = kani::any();
+    assert!(separator_len(&k) == seplen_ref(&words(&k)));
+    kani::cover!(separator_len(&k) == 256, "full-length separator");
+}
+
+#[kani::proof]
+pub fn c01_separate_is_shortest_separator() {
+    let a: [u8; 32] = kani::any();
+    let b: [u8; 32] = kani::any();
+    let (wa, wb) = (words(&a), words(&b));
+    kani::assume(lt(&wa, &wb));
+    let s = separate(&a, &b);
+    let ws = words(&s);
+    // a < s <= b
+    assert!(lt(&wa, &ws));
+    assert!(!lt(&wb, &ws));
+    // s = the first p+1 bits of b, zero afterwards, where p = common prefix of a and b: no shorter
+    // bit string can separate them (any string of <= p bits is a prefix of both)
+    let p = prefix_ref(&wa, &wb);
+    assert!(p < 256);
+    assert!(seplen_ref(&ws) == p + 1);
+    assert!(prefix_ref(&ws, &wb) >= p + 1);
+    kani::cover!(p == 255, "separator of full length");
+    kani::cover!(p == 0, "separator of one bit");
+}
